@@ -515,7 +515,8 @@ macro_rules! poll_signal_harness {
                 lm::ON_RECV = Some(on_recv_event);
             }
             let mut it: SignalIterator<SignalDelivery<Fd, SignalOnly>, SignalOnly> = SignalIterator::new(sd);
-            if $marked {
+            let marked: bool = $marked;
+            if marked {
                 // one delivery of signal 2 is pending in its slot (not yet seen by the current batch)
                 it.signals.pending.slots[2].store(true, Ordering::SeqCst);
             }
@@ -544,7 +545,7 @@ macro_rules! poll_signal_harness {
                         kani::cover!(true, "C11.cover: closed");
                     }
                     PollResult::Signal(s) => {
-                        assert!($marked && s == 2, "C10.POLL-REAL: poll_signal yields only a signal whose slot was marked");
+                        assert!(marked && s == 2, "C10.POLL-REAL: poll_signal yields only a signal whose slot was marked");
                         kani::cover!(true, "C11.cover: signal");
                     }
                     PollResult::Err(e) => {
@@ -564,6 +565,20 @@ poll_signal_harness!(c11_poll_signal_marked_f, true, [1, 0, 0]);
 poll_signal_harness!(c11_poll_signal_marked_tf, true, [2, 1, 0]);
 poll_signal_harness!(c11_poll_signal_idle_ttf, false, [2, 2, 1]);
 poll_signal_harness!(c11_poll_signal_marked_te, true, [2, 3, 0]);
+// every schedule of at most three callback answers (false / true / error, then no further call) and both slot
+// states at once: subsumes the concrete harnesses above (kept in the quick tier because they are cheaper)
+fn any_sched() -> [u8; 3] {
+    let s: [u8; 3] = [kani::any(), kani::any(), kani::any()];
+    kani::assume(s[0] >= 1 && s[0] <= 3 && s[1] <= 3 && s[2] <= 3);
+    kani::assume(s[1] != 0 || s[2] == 0);
+    // after "nothing available" or an error the call returns: later entries are never consulted
+    kani::assume(s[0] == 2 || s[1] == 0);
+    kani::assume(s[1] == 2 || s[2] == 0);
+    // the third answer ends the call (the model of the callback has no fourth answer)
+    kani::assume(s[2] != 2);
+    s
+}
+poll_signal_harness!(c11_poll_signal_sym, kani::any(), any_sched());
 
 // =============================================================================================
 // C12 / C14 : Handle::add_signal over all c_int; retry after Err; idempotence; drop unregisters all
